@@ -46,6 +46,11 @@ CHECKS.update({
          "Breadth-first search over all histories (up to the length bound) of list and dictionary operations from three initial states; after every operation value, display text, length, ends, reversal, membership, guarded reads around the bounds, iteration order, key/value lists, keyed reads and generated JSON are compared between a fresh run of the real interpreter and a slice / ordered-map reference.",
          "Trusted: the slice / ordered-map reference model. Histories beyond the bound are not covered.",
          "DESIGN.md §4 C12"),
+ "C08": ("exploration",
+         "bounded exhaustive enumeration (E1, rank/unrank) of call/object programs against a reference interpreter",
+         "Every program of m statements whose expressions range over all call/object expressions up to the depth bound (27 forms: arities, mismatches, recursion, two instances, constructor, 其, nested and failing nested calls, chains, unknown members) with traced leaves is executed and compared with the reference interpreter on ordered trace and error-ness; both instances are observed at the end.",
+         "Trusted: the reference interpreter (manual ch.8). Deeper expressions / longer programs are not covered.",
+         "DESIGN.md §4 C08"),
 })
 NOT_YET = {}
 props = [json.loads(l) for l in open(f"{V}/properties.jsonl")]
